@@ -797,9 +797,22 @@ func (g *xgen) applyEdit(doc *etree.Document, rs *ResponseSpec, w *World, kind i
 		}
 		return "nest-response-in-clean-response"
 	case 23: // white space between the children of a signed element: not a field of any decoded struct, but part of what was signed
+		// only as the LAST edit (a later one could strip the signature that covers the place) and only where a ds:Signature
+		// child of the target or of the root covers the target
+		hasSig := func(e *etree.Element) bool {
+			for _, ch := range e.ChildElements() {
+				if ch.Tag == "Signature" {
+					return true
+				}
+			}
+			return false
+		}
 		target := root
 		if len(as) > 0 {
 			target = as[0]
+		}
+		if !g.lastEdit || !(hasSig(target) || hasSig(root)) {
+			return ""
 		}
 		if kids := target.ChildElements(); len(kids) >= 2 {
 			target.InsertChildAt(kids[1].Index(), etree.NewText("\n    "))
@@ -1228,6 +1241,7 @@ func runResponseStream(c *Ctx, n int, focus string) {
 					if hugeFirst {
 						kind = 5 // forged sibling appended
 					}
+					g.lastEdit = e == nEd-1
 					if l := g.applyEdit(d2, rs, w, kind); l != "" {
 						rc.labels = append(rc.labels, l)
 						if l != "comment-in-nameid" || hasCommentC14N(rs) {
@@ -1376,6 +1390,9 @@ func runResponseStream(c *Ctx, n int, focus string) {
 	}
 	if focus == "C01" || focus == "C02" || focus == "C04" {
 		runDowngradeCases(c, cs, c.N(24, 240))
+	}
+	if focus == "C08" {
+		runCarriageReturnCases(c, cs, c.N(24, 240))
 	}
 }
 
@@ -1817,6 +1834,72 @@ func runDowngradeCases(c *Ctx, cs *CaseSet, n int) {
 		}
 		raw, _ = d2.WriteToBytes()
 		rc.raw = raw
+		wire := raw
+		if r.Intn(4) == 0 {
+			wire = deflateBytes(raw, -1)
+			rc.labels = append(rc.labels, "deflated")
+		}
+		rc.wire = b64(wire)
+		respOK := computeTrust(rc)
+		runOneResponse(c, cs, rc, respOK, "")
+	}
+}
+
+// crValuePool: values with U+000D (alone, before LF, at either end), TAB and LF -- in a conforming serialisation they can
+// only travel as character references (a raw U+000D is end-of-line normalised by every XML reader)
+var crValuePool = []string{"line1\r\nline2", "cr\rmid", "trailing-cr\r", "\r", "\rleading-cr", "tab\tlf\ncr\r", "a\r\n\tb\r", "alice\r@example.com", "two\r\rcrs"}
+
+// runCarriageReturnCases (C08): genuine IdP-signed Responses whose signed values -- attribute values (character data), the
+// NameID, the SessionIndex and the root's InResponseTo (XML attributes) -- contain U+000D, TAB and LF, serialised the way a
+// conforming IdP must: as character references (&#13; or &#xD;, &#9;, &#10;; etree's canonical escapers).  They must be
+// accepted and reproduced EXACTLY (genuine:fields / genuine:response-fields / genuine:info-*): what the SP reports is what the
+// IdP signed, not an end-of-line normalised copy (F13: before 2164cf6 xmlUnmarshalElement re-serialised the verified element
+// with U+000D raw and decoded U+000A).  Generated from a PRNG of its own so that the main stream's cases are unchanged.
+func runCarriageReturnCases(c *Ctx, cs *CaseSet, n int) {
+	w := getWorld()
+	r := rand.New(rand.NewSource(c.Seed*1000003 + 771013))
+	for k := 0; k < n; k++ {
+		g := &xgen{r: r, now: baseNow.Add(time.Duration(r.Intn(100000)) * time.Second)}
+		store := []*KeyPair{w.IdP1}
+		sp := g.newSPFor(store, g.now)
+		rs := g.okResponseSpec(1 + r.Intn(2))
+		rs.Pretty = false
+		crv := func() string { return crValuePool[r.Intn(len(crValuePool))] }
+		for i, a := range rs.Assertions {
+			a.UseCDATA, a.CommentInValues = false, false
+			if len(a.Attrs) == 0 {
+				a.Attrs = []AttrSpec{{Name: "mail"}}
+			}
+			at := &a.Attrs[r.Intn(len(a.Attrs))]
+			at.Values = append(at.Values, crv())
+			if r.Intn(2) == 0 {
+				at.Values = append([]string{crv()}, at.Values...)
+			}
+			if (k+i)%3 == 0 && a.NameID != nil {
+				a.NameID = sp2(crv())
+			}
+			if (k+i)%2 == 0 {
+				a.SessionIndex = "_s" + crv()
+			}
+		}
+		if k%4 == 1 {
+			rs.InResponseTo = "_q\r\t\nx"
+		}
+		placement := 1 + k%3
+		doc := g.buildSigned(rs, placement, w.IdP1, nil)
+		doc.WriteSettings.CanonicalText = true
+		doc.WriteSettings.CanonicalAttrVal = true
+		raw, _ := doc.WriteToBytes()
+		ref := "&#xD;"
+		if k%2 == 0 {
+			raw = []byte(strings.Replace(string(raw), "&#xD;", "&#13;", -1)) // the same character, decimal reference (no effect on any signature)
+			ref = "&#13;"
+		}
+		if !strings.Contains(string(raw), ref) {
+			continue
+		}
+		rc := &respCase{sp: sp, store: store, now: g.now, rs: rs, genuine: true, raw: raw}
+		rc.labels = append(rc.labels, fmt.Sprintf("placement=%d", placement), "key="+w.IdP1.Name, "style="+rs.Style.PP+"/"+rs.Style.AP, "cr-char-references-in-signed-values")
 		wire := raw
 		if r.Intn(4) == 0 {
 			wire = deflateBytes(raw, -1)
